@@ -37,8 +37,6 @@ ASSUMPTIONS = [
     "orientation / spacing, displacement proportional to the slice indicator, positions in exact arithmetic progression); the code itself only "
     "checks spacing to 4 % and takes the slice column from the first two sorted files",
     "float rounding on non-dyadic geometry is not modelled (compared to 2^-30 only)",
-    "a stack in which AcquisitionTime is present in the first sorted file but missing in another raises KeyError in to_nifti (modelled, "
-    "outside the property)",
 ]
 
 NAME = "main"
